@@ -517,9 +517,21 @@ func (d *driver) runScenario(sc *Scenario) (err error) {
 		case "check":
 			c := d.start(st)
 			d.finish(c)
+		case "tickms":
+			// a fraction of a second passes (st.D milliseconds, < 1000). The trace carries whole seconds: the clock event says
+			// the NEXT whole second, so that "expires at T" read at T + 0.35 s is past its expiry for the monitors as it is for the code
+			d.mu.Lock()
+			d.fracMs = int64(st.D)
+			now := d.now
+			d.mu.Unlock()
+			for _, m := range d.env.mr {
+				m.SetTime(baseTime.Add(time.Duration(now)*time.Second + time.Duration(st.D)*time.Millisecond))
+			}
+			d.rec.emit(map[string]any{"ev": "clock", "now": now + 1})
 		case "tick":
 			d.mu.Lock()
 			d.now += int64(st.D)
+			d.fracMs = 0
 			now := d.now
 			d.mu.Unlock()
 			for _, m := range d.env.mr {
